@@ -36,7 +36,8 @@ LEVEL_TEXT = (
     "pre-emption. Checked: outcome class, termination within a step budget "
     "proportional to the input length, determinism (every call repeated in "
     "another order / concurrently gives the identical outcome), no residue. "
-    "Input space is sampled.")
+    "Input space is sampled."
+    " Session 3 added: oracle 'the same characters as text stream, bytes or str give the same outcome', short-read streams, decimal-context events, runs of up to 2500 identical characters, digit runs around CPython's 4300-digit limit, aware defaults, line-break separators.")
 LEVEL_NOTE = (
     "Trusted: line events inside parser/_parser.py as the measure of "
     "'terminates promptly' (C-level work such as Decimal arithmetic is not "
